@@ -4,6 +4,12 @@ import json, sys
 pid = sys.argv[1]
 wt = sys.argv[2]
 n = sys.argv[3] if len(sys.argv) > 3 else "2"
+rnd = sys.argv[4] if len(sys.argv) > 4 else "1"
+import glob, os
+prior = []
+if rnd != "1":
+    for m in sorted(glob.glob('/verif/seeded/%s-*/meta.json' % pid)):
+        prior.append("  - " + json.load(open(m))["needs_to_manifest"])
 for l in open('/verif/properties.jsonl'):
     p = json.loads(l)
     if p['id'] == pid:
@@ -23,6 +29,7 @@ Your job: produce {n} different candidate changes ("mutants") to the library sou
 
 Prefer changes that need something specific to manifest - a particular input length or value, a multi-step sequence of operations, an unusual configuration/feature set, a particular ciphersuite or mode, two cooperating sites that each look fine alone, a boundary value - NOT changes that ordinary use would expose at once. Make them the kind of mistake or "optimisation" a real maintainer could plausibly commit. The code contains some lines guarded by `#[cfg(hpke_verif)]` (verification hooks); leave those lines alone and do not rely on them.
 
+{("This is a second round. Changes along the following lines have ALREADY been produced for this property - do NOT repeat them or close variants of them; look for different mechanisms, different code sites, different triggering conditions (other ciphersuites / KEMs / modes / features, other boundary values, other API entry points, other multi-step histories, state that only matters after many operations, cooperating changes in two files):" + chr(10) + chr(10).join(prior) + chr(10)) if prior else ""}
 For EACH mutant deliver, in the directory {wt}/../deliver-{pid}/<k>/ (k = 1, 2, ...; create it):
   - patch.diff : `git diff` of the change against the worktree's HEAD (source changes only, not the demonstration),
   - a demonstration: a small Rust test file or program (e.g. demo.rs to be dropped into {wt}/tests/ as an integration test, using only the crate's public API, or an in-crate #[test] given as a separate diff demo.diff) that FAILS with the change applied and PASSES without it. State exactly how to run it,
